@@ -46,6 +46,7 @@ def opsOf (st : DStore.DState) : StoreOps DStore.DState where
   scrape s ih f := DStore.scrape s ih f
   announcePeers s ih seeder nw p :=
     (DStore.swarm? s ih p.fam).map fun sw => (MemStore.selectPeers sw seeder nw (MemStore.peerKey p)).map (Logic.decodePeerKey p.fam)
+  down s := s.down
 where _unused := st
 
 def cfgOf (l : Line) : Except String Logic.Config := do
